@@ -1,4 +1,5 @@
 """C03: zonal stats / crosstab on Dask == NumPy table for every chunking."""
+import copy
 import numpy as np
 import pandas as pd
 
@@ -172,8 +173,30 @@ def gen_case(st, i, tier="quick", op=None):
         values["chunks"] = g.chunks_for(crng, v.shape, MB)
         real_op = "zonal_crosstab"
     from .gen_c01 import gen_dask_config
-    return {"op": real_op, "variant": op, "params": params, "rasters": [zones, values],
+    case = {"op": real_op, "variant": op, "params": params, "rasters": [zones, values],
             "dask_config": gen_dask_config(st["config"])}
+    frng = st["followup"]
+    if frng.random() < 0.35:
+        # the user calls again on the same Dask rasters: other parameters, or another values raster
+        p2 = copy.deepcopy(params)
+        r2 = [None, None]
+        mode = frng.choice(["nodata", "ids", "stats", "values"])
+        v_now = values["data"]
+        if mode == "nodata":
+            p2["nodata_values"] = None if params.get("nodata_values") is not None else _nodata(frng, v_now)
+        elif mode == "ids":
+            p2["zone_ids"] = _ids(frng, present, universe)
+        elif mode == "stats" and real_op == "zonal_stats":
+            p2["stats_funcs"] = frng.sample(ALL_STATS, frng.randint(1, 7))
+        else:
+            v2 = copy.deepcopy(values)
+            nprs = np.random.RandomState(frng.getrandbits(32))
+            d = np.asarray(v2["data"])
+            perm = nprs.permutation(d.size)
+            v2["data"] = d.ravel()[perm].reshape(d.shape).copy()
+            r2 = [None, v2]
+        case["followup"] = {"params": p2, "rasters": r2}
+    return case
 
 
 def _nodata(rng, v):
@@ -195,7 +218,8 @@ def reach(case):
          "variant_" + case.get("variant", case["op"]): True,
          "zone_ids_given": case["params"].get("zone_ids") is not None,
          "nodata_given": case["params"].get("nodata_values") is not None,
-         "nan_zones": bool(z.dtype.kind == "f" and np.isnan(z).any())}
+         "nan_zones": bool(z.dtype.kind == "f" and np.isnan(z).any()),
+         "followup_on_same_objects": bool(case.get("followup"))}
     # a zone absent from some block of the zones chunking
     ys = np.cumsum([0] + list(zc[0]))
     xs = np.cumsum([0] + list(zc[1]))
